@@ -420,3 +420,52 @@ pub fn build_pn(r: &PnReport) -> helgoboss_midi::ParameterNumberMessage {
 pub fn observe_cc14(m: &helgoboss_midi::ControlChange14BitMessage) -> Cc14Report {
     (m.channel().get(), m.msb_controller_number().get(), m.value().get())
 }
+
+/// A message *reported by a scanner* must encode like a constructor-built one: the array
+/// conversion is MSB first, `to_short_messages` honours the requested order (C09 on scanner output).
+pub fn reencode_pn(m: &helgoboss_midi::ParameterNumberMessage) -> Result<(), crate::engine::Fail> {
+    use crate::engine::api;
+    use helgoboss_midi::{DataEntryByteOrder, RawShortMessage, ShortMessage};
+    let r = observe_pn(m);
+    let built = build_pn(&r);
+    let bytes = |a: &[Option<RawShortMessage>; 4]| -> [Option<(u8, u8, u8)>; 4] {
+        let mut o = [None; 4];
+        for (i, x) in a.iter().enumerate() {
+            o[i] = x.as_ref().map(|x| {
+                let b = x.to_bytes();
+                (b.0, b.1.get(), b.2.get())
+            });
+        }
+        o
+    };
+    let into_arr: [Option<RawShortMessage>; 4] = api(|| (*m).into());
+    let want_arr: [Option<RawShortMessage>; 4] = built.into();
+    if bytes(&into_arr) != bytes(&want_arr) {
+        return Err(crate::engine::Fail { sig: "report/array_conversion_differs_from_constructed_message".into(), detail: format!("{:?}: Into<[Option<T>;4]> = {:?}, a constructor-built equal message gives {:?}", r, bytes(&into_arr), bytes(&want_arr)) });
+    }
+    for order in [DataEntryByteOrder::MsbFirst, DataEntryByteOrder::LsbFirst] {
+        let a: [Option<RawShortMessage>; 4] = api(|| m.to_short_messages(order));
+        let w: [Option<RawShortMessage>; 4] = built.to_short_messages(order);
+        if bytes(&a) != bytes(&w) {
+            return Err(crate::engine::Fail { sig: "report/encoding_differs_from_constructed_message".into(), detail: format!("{:?} ({:?}): {:?} vs {:?}", r, order, bytes(&a), bytes(&w)) });
+        }
+    }
+    Ok(())
+}
+
+pub fn reencode_cc14(m: &helgoboss_midi::ControlChange14BitMessage) -> Result<(), crate::engine::Fail> {
+    use crate::engine::api;
+    use helgoboss_midi::{RawShortMessage, ShortMessage};
+    let (c, n, v) = observe_cc14(m);
+    let a: [RawShortMessage; 2] = api(|| (*m).into());
+    let b: [RawShortMessage; 2] = api(|| m.to_short_messages());
+    let want = [(0xB0 | c, n, (v >> 7) as u8), (0xB0 | c, n + 32, (v & 127) as u8)];
+    let by = |x: &RawShortMessage| {
+        let t = x.to_bytes();
+        (t.0, t.1.get(), t.2.get())
+    };
+    if [by(&a[0]), by(&a[1])] != want || [by(&b[0]), by(&b[1])] != want {
+        return Err(crate::engine::Fail { sig: "report/encoding_differs_from_constructed_message".into(), detail: format!("{:?} encodes to {:?} / {:?}, expected {:?}", m, a, b, want) });
+    }
+    Ok(())
+}
